@@ -199,13 +199,52 @@ def runExt (cmd rest : String) : Option String :=
     let w := jsonWrite Gen.IoReaders.jsonKeepPrivate Gen.IoReaders.jsonPrivatePrefix Gen.IoReaders.jsonIdKey () d
     let r := jsonRead Gen.IoReaders.jsonReadTables Gen.IoReaders.jsonReadSkipsSetattr w
     some s!"{",".intercalate (w.map (·.1))}|{",".intercalate (r.map (·.1))}"
+  -- `h5meta units <- | q | a;b;c>` → per raw writer `writer=<attr>|<units_xyz read back>` (RAISE when the write raises);
+  -- `h5meta soma <- | id>` → `<attr>` ; `h5meta name <0|1>` (1 = the neuron has a name) → `ok` / `absent` / `RAISE` ;
+  -- `h5meta jsonacc <list 0/1> kind,kind` → `1` (accepted) / `0` (TypeError)
+  | "h5meta" => match words rest with
+    | ["units", m] => do
+      let mag ← if m == "-" then some none else match semis m with
+        | [q] => do some (some (Mag.scalar (← rat? q)))
+        | [_, _, _] => do some (some (Mag.triple (← v3r? m)))
+        | _ => none
+      let showMag : Option Mag → String
+        | none => "-"
+        | some (.scalar q) => showRat q
+        | some (.triple v) => showV3R v
+      let one := fun (w : String × String) =>
+        match h5UnitsAttr w.2 mag with
+        | none => s!"{w.1}=RAISE"
+        | some a =>
+          let r := match h5ReadUnits Gen.IoReaders.h5ReaderArrayUnits a with
+            | some (some v) => showV3R v
+            | some none => "-"
+            | none => "?"
+          s!"{w.1}={showMag a}|{r}"
+      pure (" ".intercalate (Gen.IoReaders.h5UnitsGuards.map one))
+    | ["soma", v] => do
+      let soma ← if v == "-" then some none else (v.toInt?).map some
+      let g ← Gen.IoReaders.h5SomaGuards.lookup "write_treeneuron"
+      match h5SomaAttr g soma with
+      | some (some i) => pure (toString i)
+      | some none => pure "-"
+      | none => pure "?"
+    | ["name", v] => do
+      let name := if (← flag? v) then some "n" else none
+      match h5NameAttr Gen.IoReaders.h5NameGuard name with
+      | some (some _) => pure "ok"
+      | some none => pure "absent"
+      | none => pure "RAISE"
+    | ["jsonacc", l, kinds] => do
+      pure (if jsonAccepts Gen.IoReaders.jsonMembersChecked (← flag? l) (strList kinds) then "1" else "0")
+    | _ => none
   | _ => none
 
 end Ext
 
 def run (cmd : String) (rest : String) : Option String :=
   match cmd with
-  | "select" | "info" | "nrrdhdr" | "cols" | "jsonkeys" => runExt cmd rest
+  | "select" | "info" | "nrrdhdr" | "cols" | "jsonkeys" | "h5meta" => runExt cmd rest
   -- table → bytes navis should write, and the parent column a reader should give back
   | "enc_skel" => match rest.splitOn "|" with
     | [rad, rows] => do
